@@ -223,16 +223,16 @@ def run(chk):
     corpus = json.load(open(common.VERIF + "/corpus/c18.json"))
     for c in corpus:
         cases.append((c["k"], c["ops"], "corpus"))
-    ex_specs = [(2, [1], 4), (3, [1, 2], 3)] if quick else [(2, [1], 5), (3, [1, 2], 4), (2, [1, 2], 5)]
+    ex_specs = [(2, [1], 4), (3, [1, 2], 3)] if quick else [(2, [1], 5), (3, [1, 2], 4)]
     ex_counts = {}
     for (k, vals, ln) in ex_specs:
         hs = exhaustive(k, vals, ln)
         ex_counts["k=%d vals=%d len=%d" % (k, len(vals), ln)] = len(hs)
         cases += [(k, h, "exhaustive") for h in hs]
-    nrand = 2000 if quick else 30000
+    nrand = 2000 if quick else 8000
     for n in range(nrand):
         k = chk.rng.choice([2, 3, 4, 5])
-        ln = chk.rng.randrange(5, 41 if quick else 121)
+        ln = chk.rng.randrange(5, 41 if quick else 81)
         cases.append((k, random_history(chk.rng, k, 4, ln), "random"))
 
     lines = ["%d;%s" % (k, ",".join(ops)) for k, ops, _ in cases]
